@@ -341,7 +341,9 @@ NodeTuple(db, k) ==
   LET n == db.nodes[k] IN
     IF n.kind = "file" THEN <<k, n.creator, n.fstate, n.fhash, n.fmode>>
     ELSE IF n.kind = "step" THEN
-      <<k, n.creator, n.sstate, n.need, n.impliedNeed, n.deferred, n.shell,
+      \* (the deferred flag and the defer count are scheduling memory -- how often a waiting step happened
+      \* to be retried -- not part of what the plans define; they are compared by the C10 monitors)
+      <<k, n.creator, n.sstate, n.need, n.impliedNeed, FALSE, n.shell,
         {<<n.envVars[i][1], n.envVars[i][3]>> : i \in DOMAIN n.envVars},   \* name, dynamic
         n.nglobs, n.resources, n.overrides>>
     ELSE <<k, n.creator>>
@@ -374,7 +376,7 @@ DynOutputOfPending(db, f) ==
 RelaxedNodeTuple(db, k) ==
   LET n == db.nodes[k] IN
     IF n.kind = "step" /\ n.sstate = "PENDING" THEN
-      <<k, n.creator, n.sstate, n.need, n.impliedNeed, n.deferred, n.shell,
+      <<k, n.creator, n.sstate, n.need, n.impliedNeed, FALSE, n.shell,
         {<<n.envVars[i][1], n.envVars[i][3]>> : i \in {j \in DOMAIN n.envVars : ~n.envVars[j][3]}},
         <<>>, n.resources, n.overrides>>
     ELSE NodeTuple(db, k)
